@@ -390,6 +390,26 @@ def handleUnsched : Handler := fun i o => do
            tags := [s!"unsched:{thenS}", s!"unsched:{(jstr i "scope").toOption.getD "?"}"] }
 
 
+/-- domain `fatalseq`: the errors several informers' handlers hand to the reporter one after the other.  Context errors (bare or
+wrapped) are what a handler gets when ITS informer was stopped under it: they are not failures of the watch.  The first other
+error is reported — one error event — and stops the reporter; nothing else is ever reported. -/
+def handleFatalSeq : Handler := fun i o => do
+  let errs ← (← asList (← jget i "errs")).mapM (·.getStr?)
+  let real := errs.filterMap (fun k => if k.startsWith "real:" then some (k.drop 5).toString else none)
+  -- the model: `Reporter.fatalSeq` (theorems C16.fatal_sends_first_real, fatal_at_most_one, fatal_reported_iff)
+  let st := Reporter.fatalSeq (errs.map (fun k => if k.startsWith "real:" then some (k.drop 5).toString else none))
+  let m := Json.mkObj [("panic", Json.null), ("sent", strsToJson st.sent), ("stopped", st.flag)]
+  let sent ← strList (← jget o "sent")
+  let stopped ← jbool o "stopped"
+  let crashed := match jopt o "panic" with | some Json.null => false | none => false | _ => true
+  -- C16: at most one error event; a fatal error is reported (and the reporter stops, which closes the channel) iff there was one
+  let spec := !crashed && sent.length ≤ 1 && (sent.isEmpty == real.isEmpty) && (stopped == !real.isEmpty) &&
+              (match sent with | [e] => real.contains e | _ => true)
+  return { model := m, agree := m == o, spec := spec, specModel := true, nontrivial := !errs.isEmpty,
+           note := if spec then "" else "C16: a fatal error of the watch was not reported exactly once (or a context error was reported)",
+           tags := [s!"fatalseq:real{real.length}", if errs.length == real.length then "fatalseq:only-real" else "fatalseq:mixed"] }
+
+
 /-- domain `watcher-late`: cancelled in the middle of a slow paginated LIST, the watcher closes its channel and no further LIST
 page request reaches the server afterwards (every informer call runs under a context that ends with the watcher's) -/
 def handleLate : Handler := fun i o => do
